@@ -363,10 +363,23 @@ def fs4(ctx):
     if ok_forward:
         back = fl.backward(set(fl.op_nodes(fw[0]['call'].args[0])))
         ok_forward = any(re.match(r'^core::str::<impl str>::parse::<u64>$', c.name) and any(x in back for x in fl.call_result_nodes(c)) for c in b.calls)
+    tgt = fw[0]['point'] if fw else None
+    if not ok_forward:
+        # `.ok()` written out (A-DESUGAR) or a `match parse() { Ok(n) => Some(n), Err(_) => None }`: every Some(..)
+        # exit carries the Ok payload of parse::<u64>()
+        somes = [e for e in exits if e['kind'] == 'some']
+        rest = [e for e in exits if e['kind'] not in ('some',) and not (e['kind'] == 'err_prop' and 'std::option::Option<' in e['residual_call'].name.split(' as ')[0])]
+        parses = [c for c in b.calls if re.match(r'^core::str::<impl str>::parse::<u64>$', c.name)]
+        if somes and not rest and parses:
+            t_p = set()
+            for c in parses:
+                t_p |= fl.forward(set(fl.call_result_nodes(c)))
+            if all(e['ops'] and fl.op_tainted(e['ops'][0], t_p) for e in somes):
+                ok_forward = True
+                tgt = parses[0].point
     ctx.check(ok_forward, 'only-parse-result', b.span, 'the only non-None result is parse::<u64>().ok()', 'the name parser can return a number that is not the parse result (exits: %s)' % [e['kind'] for e in exits])
-    if not fw:
+    if tgt is None:
         return
-    tgt = fw[0]['point']
     g_len = False
     for bi, blk in enumerate(b.blocks):
         if b.live[bi] and blk['term']['k'] == 'switch':
